@@ -132,8 +132,8 @@ def dnaShadowed : List Str := ["genomic DNA", "other DNA", "unassigned DNA"].map
 /-- a date-like piece `dd-MMM-yyyy` somewhere in `s` -/
 def hasDate (s : Str) : Bool := (tailsOf s).any fun t => isDate (t.take 11)
 
-/-- class C03-odd-quote: a qualifier value with an odd number of quotation marks (the writer does
-not double them; since c94d396 the parser takes the next qualifier line for a continuation) -/
+/-- regression class of the repaired defect C03-odd-quote (fix 9a46c6b): a qualifier value with an
+odd number of quotation marks (the writer does not double them) -/
 def clsOddQuote (x : Sequence) : Bool :=
   x.features.any fun f => f.attributes.any fun kv => (kv.2.filter (· == '"')).length % 2 == 1
 
@@ -153,9 +153,8 @@ def topKeywords : List Str :=
 def contStartsWith (ws : List Str) (out : Str) : Bool :=
   (lines out).any fun l => isCont l && (match tokens (l.drop 12) with | t :: _ => ws.contains t | [] => false)
 
-/-- class C03-toplevel-continuation: a continuation line begins with a TOP-LEVEL keyword as a word;
-getReference still tests `topLevelFeatureCheck(first word)` before it looks at the columns, so
-the reference ends there (what remains of C03-subkeyword-continuation after fix 49c2e81) -/
+/-- regression class of the repaired defect C03-toplevel-continuation (fix 1a072ef): a continuation
+line begins with a TOP-LEVEL keyword as a word -/
 def clsTopKeyword (out : Str) : Bool := contStartsWith topKeywords out
 
 /-- regression class of the repaired defect C03-subkeyword-continuation (fix 49c2e81): a continuation
@@ -221,12 +220,11 @@ def judgeRec (kind : String) (x : Sequence) (tail : List String) : Verdict :=
     let y := (decodeRec yf).map (·.1)
     let diffs := match y with | some y => diffFields x y | none => ["unparsed"]
     let c4 := pst == "ok" && wrst == "same" && (match y with | some y => seqEquiv x y | none => false)
-    let kf :=
-      (if rtDom && !c4 && pst == "ok" && clsOddQuote x && diffs == ["features"] then " kf:C03-odd-quote" else "")
-      ++ (if rtDom && !c4 && pst == "ok" && clsTopKeyword m && diffs == ["references"] then " kf:C03-toplevel-continuation" else "")
+    let kf := ""
     -- regression classes of the three repaired defects (evidence only; they are judged like every other case)
-    let reg := (if clsLocusSearch x then "/locus-token" else "") ++ (if clsSubKeyword m then "/keyword-at-line-start" else "")
-      ++ (if clsRefWrapped m then "/reference-wrapped" else "")
+    let reg := (if clsLocusSearch x then "/locus-token" else "")
+      ++ (if clsSubKeyword m || clsTopKeyword m then "/keyword-at-line-start" else "")
+      ++ (if clsRefWrapped m then "/reference-wrapped" else "") ++ (if clsOddQuote x then "/odd-quote" else "")
     let wraps := (headerLines m).any isCont
     let cached := x.features.any fun f => f.gbkLocationString != []
     let structural := x.features.any fun f => f.gbkLocationString == []
